@@ -337,7 +337,9 @@ func (handle *writeTxnHandle) Abort() {
 
 	txn.duration.Store(uint64(time.Since(txn.acquiredAt)))
 
+	verifPause("abort-before-unlock", txn.handle)
 	txn.smus.Unlock()
+	verifPause("abort-unlocked", txn.handle)
 	txn.db.metrics.WriteTxnDuration(
 		txn.handle,
 		txn.tableNames,
@@ -402,7 +404,9 @@ func (handle *writeTxnHandle) Commit() ReadTxn {
 	// Acquire the lock on the root tree to sequence the updates to it. We can acquire
 	// it after we've built up the new table entries above, since changes to those were
 	// protected by each table lock (that we're holding here).
+	verifPause("commit-indexes", txn.handle)
 	db.mu.Lock()
+	verifPause("commit-root-locked", txn.handle)
 
 	// Since the root may have changed since the pointer was last read in WriteTxn(),
 	// load it again and modify the latest version that we now have immobilised by
@@ -443,21 +447,26 @@ func (handle *writeTxnHandle) Commit() ReadTxn {
 	// Commit the transaction to build the new root tree and then
 	// atomically store it.
 	db.root.Store(&root)
+	verifPause("commit-root-stored", txn.handle)
 	db.mu.Unlock()
+	verifPause("commit-root-unlocked", txn.handle)
 
 	// Now that new root is committed, we can notify readers by closing the watch channels of
 	// mutated radix tree nodes in all changed indexes and on the root itself.
 	for _, txn := range txnToNotify {
 		txn.notify()
 	}
+	verifPause("commit-notified", txn.handle)
 
 	// With the root pointer updated, we can now release the tables for the next write transaction.
 	txn.smus.Unlock()
+	verifPause("commit-tables-unlocked", txn.handle)
 
 	// Notify table initializations
 	for _, ch := range initChansToClose {
 		close(ch)
 	}
+	verifPause("commit-init-closed", txn.handle)
 
 	txn.db.metrics.WriteTxnDuration(
 		txn.handle,
